@@ -17,6 +17,38 @@ def accepts(d):
     return d[3], d[4:flen - 2]
 
 
+def crc16_generic(data, poly, init, refin, refout, xorout):
+    reg = init
+    for b in data:
+        if refin:
+            b = int(f"{b:08b}"[::-1], 2)
+        reg ^= b << 8
+        for _ in range(8):
+            reg = ((reg << 1) ^ poly) & 0xFFFF if reg & 0x8000 else (reg << 1) & 0xFFFF
+    if refout:
+        reg = int(f"{reg:016b}"[::-1], 2)
+    return reg ^ xorout
+
+
+def wrong_footers(f):
+    """the frame with its footer replaced by plausible mistakes"""
+    body, c = f[:-2], f[-2] << 8 | f[-1]
+    outs = [
+        body + bytes([c & 0xFF, c >> 8]),                                   # little-endian CRC
+        body + bytes([(c ^ 0xFFFF) >> 8, (c ^ 0xFFFF) & 0xFF]),             # complemented
+    ]
+    for poly, init, ri, ro, xo in [(0x1021, 0xFFFF, False, False, 0), (0x1021, 0, True, True, 0),
+                                   (0x8005, 0, True, True, 0), (0x8005, 0xFFFF, True, True, 0),
+                                   (0x1021, 0x1D0F, False, False, 0), (0x1021, 0xFFFF, True, True, 0xFFFF)]:
+        v = crc16_generic(body, poly, init, ri, ro, xo)
+        outs.append(body + bytes([v >> 8, v & 0xFF]))
+    p = ref_crc16_xmodem(body[4:])
+    outs.append(body + bytes([p >> 8, p & 0xFF]))                           # CRC over the payload only
+    h = ref_crc16_xmodem(body[1:])
+    outs.append(body + bytes([h >> 8, h & 0xFF]))                           # CRC without the start byte
+    return [o for o in outs if o != f]
+
+
 class Recorder:
     def __init__(self):
         from nxslib.proto.iparserecv import ParseRecvCb
@@ -124,6 +156,20 @@ class C02(Prop):
                 start = rng.randrange(nb)
                 pat = [start] + [start + k for k in range(1, 16) if start + k < nb and rng.random() < 0.5]
                 yield from self.both(g.flip_bits(f, pat), "burst")
+        # plausible-but-wrong footers: byte-swapped CRC, complemented, other CRC-16 variants, CRC over the payload only
+        for _ in range(60 if T else 15):
+            f = g.request_frame(rng)
+            for bad in wrong_footers(f):
+                yield from self.both(bad, "wrong-footer")
+        # leading bytes + a frame that declares 1..4 bytes more than follow its start byte, CRC-consistent over what is there
+        for _ in range(60 if T else 15):
+            f = g.request_frame(rng)
+            for k in range(1, 5):
+                body = g.set_len(f, len(f) + k)[:-2]
+                c = ref_crc16_xmodem(body)
+                cut = body + bytes([c >> 8, c & 0xFF])
+                for pre in (bytes(k), bytes(k + 2), g.rbytes(rng, k).replace(b"\x55", b"\x54")):
+                    yield from self.both(pre + cut, "overlong-after-leading-bytes")
         # pure noise, 0x55-rich
         for _ in range(300 if T else 60):
             yield from self.both(g.noise(rng, rng.randrange(0, 24), sof_rich=True), "noise")
@@ -173,6 +219,11 @@ class C02(Prop):
         return None
 
     def search_cases(self, rng):
+        for _ in range(20):
+            f = g.request_frame(rng)
+            for bad in wrong_footers(f):
+                yield f"frame decode {hexs(bad)}", "search"
+                yield f"recv handle {hexs(bad)}", "search"
         for n in range(0, 8):
             for fid in (2, 3, 5, 6, 7, 9):
                 for tail in (b"", b"\x00\x00", b"\xde\xad\xbe\xef", b"\x00" * 6):
